@@ -69,6 +69,15 @@ def run(ctx):
 
     n = ctx.n(150, 1200)
     for _ in range(n):
+        try:
+            _one(ctx, g, corr)
+        except DeclarationError:
+            ctx.count("generator_declaration_rejected")
+    _finish(ctx, reqs, exp, info)
+
+
+def _one(ctx, g, corr):
+    if True:
         # --- unions
         (a, wa), (b, wb) = g.any_schema(2), g.any_schema(2)
         u = a | b
@@ -135,6 +144,9 @@ def run(ctx):
                 if d1[k] is not keys[k][0]:
                     ctx.violation("d[key] is not the declared member schema", d=repr(d1), key=repr(k))
                 corr(lambda I: ["getitem", encode.enc_schema(d1, I), encode.enc_key(k, I)], lambda: d1[k], ("getitem", d1, k))
+
+
+def _finish(ctx, reqs, exp, info):
     res = model.run_batch(reqs)
     bad = 0
     for r, e, what in zip(res, exp, info):
